@@ -71,6 +71,7 @@ DescFaults(seed) ==
 GrowSizes(kind, tier) ==
     CASE kind \in {"anno_array", "anno_anno"} -> {1, 50, 300, 5000} \cup (IF tier = 0 THEN {100000} ELSE {20000, 100000, 400000})
       [] kind = "condy_fanout" -> {1, 2, 8, 16} \cup (IF tier = 0 THEN {30} ELSE {24, 40, 64})     \* the tree denoted has 2^k nodes
+      [] kind = "condy_uses" -> {1, 100, 16000}                                  \* a tree of 4095 constants loaded k times by one method
       [] kind = "ifc_args" -> {1, 126, 127, 128, 200, 255}
       [] kind = "method_args" -> {127, 128, 255, 256}
       [] kind = "labels" -> {0, 1, 2}             \* 0: every pc has a line number; 1: plus an exception range ending at code_length; 2: plus a local variable ending there
